@@ -126,4 +126,25 @@ def allOpenGrouped (groups : List Nat) (templates : List (List Tok)) : List Nat 
 def resolveAll {α : Type} (bound : List Nat) (env : Nat → α) (t : List Tok) : List (Nat × Option α) :=
   (refs t).map fun n => if bound.contains n then (n, none) else (n, some (env n))
 
+/-! ## names the generated code picks for itself (`hasher_ident`, `debug_field_ident`) -/
+
+def candidate (base : List Char) (k : Nat) : List Char := base ++ List.replicate k '_'
+
+/-- the loop: `fuel` iterations, each of which stops at a free candidate or appends one `_` -/
+def pickName (base : List Char) (taken : List (List Char)) : Nat → Nat → List Char
+  | 0, k => candidate base k
+  | fuel + 1, k => if taken.contains (candidate base k) then pickName base taken fuel (k + 1) else candidate base k
+
+/-- The hasher type parameter: `H`, `H_`, `H__`, … — the first that is not a generic parameter of the type
+    (`hasher_ident`: one step per generic parameter). -/
+def hasherName (generics : List (List Char)) : List Char := pickName ['H'] generics generics.length 0
+
+/-- The wrapper struct of a custom Debug method: `Educe__DebugField`, `Educe__DebugField_`, … — the first that is
+    neither the type's own name nor one of its generic parameters (`debug_field_ident`: one step more than there are
+    generic parameters). -/
+def debugFieldBase : List Char := "Educe__DebugField".toList
+
+def debugFieldName (ident : List Char) (generics : List (List Char)) : List Char :=
+  pickName debugFieldBase (ident :: generics) (generics.length + 1) 0
+
 end Educe.Names
